@@ -1,7 +1,7 @@
 #!/bin/bash
 # usage: tools_seed.sh <patch.diff> <check args...>  -- apply a seeded change to /repo, run a check, undo
 patch=$1; shift
-cd /repo && git apply "$patch" || { echo "PATCH DOES NOT APPLY"; exit 3; }
+cd /repo && { git diff --quiet || { echo "REPO HAS UNCOMMITTED CHANGES - refusing"; exit 4; }; } && git apply "$patch" || { echo "PATCH DOES NOT APPLY"; exit 3; }
 cd /verif && ./check "$@" 2>&1 | grep -E "VIOLATION|KNOWN|BROKEN|violated|broken|holds" | cut -c1-260
 echo "rc=${PIPESTATUS[0]}"
 cd /repo && git checkout -- . && git status --short | head -3
